@@ -225,16 +225,23 @@ def boundary_hist_cases(g, n):
             v = ['s'] + [g.val(e, 1) for _ in range(ln - 1)] + [g.max_val(e)]
             one = lambda: g.val(e, 1)
         else:
-            e = r.choice([['cont', 'u8', 'u16'], ['Bv', 32], ['list', 'u8', 3], ['vec', 'u64', 4]])
-            ln = r.choice([2, 4, 4, 8]) + r.choice([1, 1, 0])
-            lim = max(ln, r.choice([ln, 16, 9, 2**30]))
+            e = r.choice([['cont', 'u8', 'u16'], ['Bv', 32], ['list', 'u8', 3], ['vec', 'u64', 4], ['cont', 'u64'], ['bv', 200], ['Bv', 7]])
+            ln = r.choice([0, 0, 1, 2, 4, 4, 8]) + r.choice([1, 1, 0])
+            lim = max(ln, r.choice([ln, 16, 9, 2**30]), 3)
             t = ['list', e, lim]
             v = ['s'] + [g.max_val(e) if r.random() < 0.5 else g.val(e, 3) for _ in range(ln)]
-            one = lambda: g.val(e, 3)
-        ops = [['pop']]
+            # (all-zero elements included: an appended zero element must exist in the tree like any other)
+            one = lambda: g.zero(e) if r.random() < 0.4 else g.val(e, 3)
+        ops = [['pop']] if len(v) > 1 else []
+        cur = len(v) - 1 - len(ops)
         for _ in range(r.choice([1, 3, 6])):
-            ops.append(r.choice([['pop'], ['pop'], ['app', one()], ['app', one()]]))
-        out.append(show(['hist', t, v] + ops))
+            o = r.choice([['pop'], ['pop'], ['app', one()], ['app', one()]])
+            if o[0] == 'pop' and cur == 0 or o[0] == 'app' and cur >= lim:
+                continue
+            cur += 1 if o[0] == 'app' else -1
+            ops.append(o)
+        if ops:
+            out.append(show(['hist', t, v] + ops))
     return out
 
 
@@ -680,6 +687,13 @@ class DecProp(Prop):
             out.append(show(['dec', t, 'x', 'x', 'x']))
             out.append(show(['dec', ['union', t, 'u16'], 'x', 'x00', 'x']))
             out.append(show(['dec', ['cont', 'u8', ['union', 'none', t]], 'x', 'x070500000001', 'x']))
+        # boolean sequences with a byte that is neither 00 nor 01, at every chunk position, bare and nested
+        for n_ in (1, 3, 32, 33, 40, 64, 65):
+            for t in (['vec', 'bool', n_], ['list', 'bool', n_], ['cont', 'u8', ['vec', 'bool', n_]], ['vec', ['vec', 'bool', n_], 2]):
+                raw = bytearray(r.choice([0, 1]) for _ in range(n_ * (2 if t[0] == 'vec' and t[1] != 'bool' else 1)))
+                raw[r.choice([0, len(raw) - 1, r.randrange(len(raw))])] = r.choice([2, 3, 128, 255])
+                pre = b'\x09' if t[0] == 'cont' else b''
+                out.append(show(['dec', t, 'x', 'x' + (pre + bytes(raw)).hex(), 'x']))
         # bitfield edits: every padding bit of a bitvector's last byte, delimiter edits of a bitlist,
         # at top level and as a field between other fields
         for _ in range(max(4, n // 60)):
@@ -976,7 +990,12 @@ class C13(Prop):
             w = r.choice(W)
             bits = 8 * w
             top = 1 << bits
-            op = r.choice(['mul', 'mul', 'mul', 'add', 'sub', 'pow', 'lshift'])
+            op = r.choice(['mul', 'mul', 'mul', 'add', 'sub', 'pow', 'lshift', 'rpow'])
+            if op == 'rpow':
+                # plain int base, uint exponent at and around the width
+                n = r.choice([bits - 1, bits, bits, min(bits + 1, 255), min(2 * bits, 255)])
+                out.append(show(['uop', 'pow', '-', r.choice([2, 2, 2, 3, 1, 0]), w, n]))
+                continue
             if op == 'mul':
                 la = r.randint(1, bits)
                 a = r.randrange(1 << (la - 1), 1 << la)
